@@ -505,6 +505,15 @@ fn judge_arc(case: &Case, l: &mut Local) {
             ("ransac", Circle2::ransac(&samples, 1e-6 * r, Some(50), None, None).ok()),
             ("from point", Some(Circle2::from_point(Point2::new(cx, cy), r))),
         ];
+        // a circle (and an arc) written out and read back carries the same box
+        let restored = serde_json::to_string(&c).ok().and_then(|t| serde_json::from_str::<Circle2>(&t).ok());
+        let arc_restored = serde_json::to_string(&arc).ok().and_then(|t| serde_json::from_str::<Arc2>(&t).ok());
+        if let Some(ar) = &arc_restored {
+            judge_aabb(ar, &mk, "restored arc", l);
+        }
+        l.check("circle and arc survive serialisation", "", restored.is_some() && arc_restored.is_some(), mk, String::new);
+        let mut built = built;
+        built.push(("restored", restored));
         for (name, made) in built {
             match made {
                 Some(m) => {
